@@ -2,62 +2,48 @@
    rank_range / select like the stored sequence, over any correct backing bit vector, in every
    build configuration, for all arguments in usize.  Pinned statements only; proofs are in
    Proofs/WMLists.v, Proofs/WMBuild.v, Proofs/WMQueries.v.
-   `b_build_ok` is the interface to the backings (Rank9Sel, DArray with all indexes, plain
-   BitVector): building from a well-formed bit vector within capacity succeeds, with the same
-   result in every configuration, and the result answers like the bit list. *)
+   The interface to the backings (Rank9Sel, DArray with all indexes, plain BitVector) used by those
+   proofs -- building from a well-formed bit vector within capacity succeeds, with the same result
+   in every configuration, and the result answers like the bit list -- is the theorem
+   Integration.b_build_ok_holds; the statements below are closed, for all three backing kinds k. *)
 From Sucds Require Import Base.Res Spec.BitSpec Spec.SeqSpec Spec.DacSpec Model.BitVector Model.Wavelet
-  Proofs.BVAbs Proofs.IndexSpecs Proofs.WMBuild Proofs.WMQueries.
+  Proofs.BVAbs Proofs.IndexSpecs Proofs.WMBuild Proofs.WMQueries Proofs.Integration.
 Open Scope N_scope.
 
 (* construction: Ok for every non-empty sequence (one value for all configurations), Err for [] *)
-Theorem C05_new : forall 
-    (b_build_ok : forall k bv, wf bv -> cap_ok bv ->
-     exists b, (forall c, b_build c k bv = Ok b) /\ (forall c, backing_correct c b (bits_of bv)))
-    k s,
+Theorem C05_new : forall k s,
   s <> [] /\ max_list s + 1 < W /\ lenN s < 2 ^ 50 ->
   exists wm, (forall c, wm_new c k s = Ok (Some wm)) /\ wm_len wm = lenN s /\
              wm_alph_size wm = max_list s + 1 /\ wm_alph_width wm = bitlen (max_list s + 1).
-Proof. exact wm_new_spec. Qed.
+Proof. exact wm_new_closed. Qed.
 Print Assumptions C05_new.
 Theorem C05_new_empty : forall c k, wm_new c k [] = Ok None.
 Proof. exact wm_new_empty. Qed.
 Print Assumptions C05_new_empty.
 
-Theorem C05_access : forall 
-    (b_build_ok : forall k bv, wf bv -> cap_ok bv ->
-     exists b, (forall c, b_build c k bv = Ok b) /\ (forall c, backing_correct c b (bits_of bv)))
-    c0 k s wm,
+Theorem C05_access : forall c0 k s wm,
   s <> [] /\ max_list s + 1 < W /\ lenN s < 2 ^ 50 -> wm_new c0 k s = Ok (Some wm) ->
   forall c i, i < W -> wm_access c wm i = Ok (SeqSpec.nth_opt s i).
-Proof. exact wm_access_spec. Qed.
+Proof. exact wm_access_closed. Qed.
 Print Assumptions C05_access.
 
-Theorem C05_rank_range : forall 
-    (b_build_ok : forall k bv, wf bv -> cap_ok bv ->
-     exists b, (forall c, b_build c k bv = Ok b) /\ (forall c, backing_correct c b (bits_of bv)))
-    c0 k s wm,
+Theorem C05_rank_range : forall c0 k s wm,
   s <> [] /\ max_list s + 1 < W /\ lenN s < 2 ^ 50 -> wm_new c0 k s = Ok (Some wm) ->
   forall c a b v, a < W -> b < W -> v < W ->
   wm_rank_range c wm a b v = Ok (SeqSpec.wm_rank_range s a b v).
-Proof. exact wm_rank_range_spec. Qed.
+Proof. exact wm_rank_range_closed. Qed.
 Print Assumptions C05_rank_range.
 
-Theorem C05_rank : forall 
-    (b_build_ok : forall k bv, wf bv -> cap_ok bv ->
-     exists b, (forall c, b_build c k bv = Ok b) /\ (forall c, backing_correct c b (bits_of bv)))
-    c0 k s wm,
+Theorem C05_rank : forall c0 k s wm,
   s <> [] /\ max_list s + 1 < W /\ lenN s < 2 ^ 50 -> wm_new c0 k s = Ok (Some wm) ->
   forall c i v, i < W -> v < W -> wm_rank c wm i v = Ok (SeqSpec.wm_rank_range s 0 i v).
-Proof. exact wm_rank_spec. Qed.
+Proof. exact wm_rank_closed. Qed.
 Print Assumptions C05_rank.
 
-Theorem C05_select : forall 
-    (b_build_ok : forall k bv, wf bv -> cap_ok bv ->
-     exists b, (forall c, b_build c k bv = Ok b) /\ (forall c, backing_correct c b (bits_of bv)))
-    c0 k s wm,
+Theorem C05_select : forall c0 k s wm,
   s <> [] /\ max_list s + 1 < W /\ lenN s < 2 ^ 50 -> wm_new c0 k s = Ok (Some wm) ->
   forall c j v, j < W -> v < W -> wm_select c wm j v = Ok (SeqSpec.wm_select s j v).
-Proof. exact wm_select_spec. Qed.
+Proof. exact wm_select_closed. Qed.
 Print Assumptions C05_select.
 
 (* a concrete instance, computed: "banana" over the plain BitVector backing, dev configuration *)
